@@ -110,6 +110,11 @@ def run(ctx):
         for beyond in range(1, 8):
             cases.append((b"x\ny\nz\n", 3 + beyond, col, "short-file+%d" % beyond))
         cases.append((b"x\ny\nz\n", 1000, col, "short-file+997"))
+    # a long line (below the 64 KiB limit of the line scanner) ABOVE the reported one: inside and outside the context window
+    for big in (4095, 4096, 4097, 5016, 8193, 20000):
+        body = b"\n".join([b"package p", b"var s = \"" + b"x" * big + b"\"", b"// two", b"\tvalue.Field = 1", b"// four", b"\tother.Field++", b"end"]) + b"\n"
+        for n, col in ((4, 2), (4, 8), (6, 2), (2, 5), (3, 1)):
+            cases.append((body, n, col, "below-long-line/%d" % big))
     for n in (9, 10, 11, 99, 100, 101):   # width of the line-number gutter changes
         cases.append((b"\n".join(b"l%d" % i for i in range(1, 120)) + b"\n", n, 2, "gutter"))
     for code in ("IMM01", "CTOR02", "TONL03", "PKGO01", "IMPL03", "ZZZ9", "IM"):
